@@ -28,6 +28,16 @@ applications (one request, one pair, FIFO).  A history is one run of the model
 (`reset` once): tied when no half is kept before the last application (the
 model has no StopApp), else judged by the oracle only.
 
+Results that cannot be stored yet.  One host (creator or receiver side of a
+create-and-keep request) still holds a qubit at the virtual address its
+request names for the first pair, and frees it with a later subroutine that it
+submits (k - 1/2) retry periods of virtual time after the result had to wait
+(k = 1, 2, 3, 5; n = 1 or 2): the result becomes storable at the k-th look of
+`_wait_to_handle_epr_responses`.  Ordinary oracle and tie; in addition no
+result may be waiting to be stored when the network is idle, and a run that
+does not end is reported as `counts:one-side-never-obtains-results` when the
+hosts' arrays show that one side has its n results and the other has none.
+
 Oracle (independent of the Lean model): on the ReturnArray contents of both
 hosts -- exactly n results per request and side, the i-th results agree on
 sequence number and create id, name each other's node, directionality 0 / 1,
@@ -77,6 +87,9 @@ ASSUMPTIONS = [
     "netqasm writes a finished pair to the first pending request of the socket); the model executes cmd_epr atomically",
     "the network configuration file lists the nodes in arbitrary (mostly non-alphabetical) order; node ids are the "
     "positions in the sorted list of names",
+    "in the blocked-result scenarios the host of one side names, for the first pair of its request, a virtual address "
+    "at which it still holds a qubit, and frees it with a later subroutine (raw NetQASM allows that; the SDK is used "
+    "as the assembler with its address book-keeping overridden); the harness adds one wake-up timer of its own",
     "applications at one node run ONE AFTER ANOTHER (the next InitNewApp follows the StopApp of the previous one): the "
     "EPR socket table of a node is per NetQASM server, not per application, so two applications open at the same time "
     "at one node with the same local socket id are outside the contract.  Histories in which an application before "
@@ -88,6 +101,8 @@ ASSUMPTIONS = [
 ]
 
 NAMES = ["Alice", "Bob", "Charlie", "David"]
+RETRY_PERIOD = 0.1      # virtual seconds between two looks at the results that could not be stored yet
+#                         (executioner._wait_to_handle_epr_responses)
 OK_FIELDS = 10
 RB_SETS = {"NONE": ["Z"], "XZ": ["X", "Z"], "XYZ": ["X", "Y", "Z"], "CHSH": ["ZPLUSX", "ZMINUSX"]}
 BASIS_NAME = {0: "Z", 1: "X", 2: "Y", 3: "ZPLUSX", 4: "ZMINUSX"}
@@ -313,6 +328,8 @@ def sub_scenario(sc, keep, fifo):
         out["pipe_gap"] = 0 if fifo else sc.get("pipe_gap", 0)
     if sc.get("order"):
         out["order"] = list(sc["order"])
+    if sc.get("block") and sc["block"]["req"] in new_index:
+        out["block"] = dict(sc["block"], req=new_index[sc["block"]["req"]])
     return out
 
 
@@ -374,11 +391,24 @@ class Runner:
                 app = sc.get("app", 0)
                 app = app.get(n, 0) if isinstance(app, dict) else app
 
-                def fn(conn, subs=subs, socks=socks, fill=fill):
+                blk = sc.get("block") if (sc.get("block") or {}).get("node") == n else None
+                if blk is not None and subs != [[[blk["side"], blk["req"]]]]:
+                    raise core.MachineryError("scenario %r: the blocked node's program must be the one blocked request" % (sc.get("id"),))
+
+                def fn(conn, subs=subs, socks=socks, fill=fill, blk=blk):
                     for _ in range(fill):
                         Qubit(conn)
                     if fill:
                         conn.flush()
+                    if blk is not None:
+                        # `block`: the host still holds a qubit at the virtual address the request names for its first
+                        # pair (a host program in raw NetQASM is free to do that; the SDK serves as the assembler: its
+                        # address book-keeping is told the address is free, nothing else).  Subroutine A allocates the
+                        # qubit, B is the request, C (`qfree`) is submitted by the host while B is still waiting -- see
+                        # `phase` for when.
+                        old = Qubit(conn)
+                        conn.flush()
+                        conn.builder._mem_mgr.deactivate_qubit(old)
                     for sub in subs:
                         for kind, ri in sub:
                             r = sc["reqs"][ri]
@@ -400,6 +430,9 @@ class Runner:
                                 else:
                                     e.recv_measure(number=r["n"])
                         conn.flush()
+                    if blk is not None:
+                        conn.builder._build_cmds_qfree(old.qubit_id)
+                        conn.flush()
                 msgs = nq.program(n, fn, epr_sockets=[socks[k] for k in sorted(socks)], app_id=app, max_qubits=16)
                 from netqasm.backend.messages import deserialize_host_msg
                 keep, tail = [], []
@@ -407,6 +440,10 @@ class Runner:
                     nm = type(deserialize_host_msg(m)).__name__
                     (tail if nm in ("StopAppMessage", "SignalMessage") else keep).append(m)
                 out[n] = (keep, [m for m in tail if type(deserialize_host_msg(m)).__name__ == "StopAppMessage"])
+                if blk is not None:
+                    if sum(1 for m in keep if _is_subroutine(m)) != 3:
+                        raise core.MachineryError("scenario %r: blocked program is not [allocate, request, free]" % (sc.get("id"),))
+                    out[n] = out[n] + ({"msg": len(keep) - 1, "k": blk["k"]},)
         finally:
             B.serialize_request = orig
         return out
@@ -603,7 +640,8 @@ class Runner:
                 p, t = nq.host(n)
                 hosts[n] = {"p": p, "t": t, "msgs": progs[n][0], "stop": progs[n][1], "sent": 0, "seen": 0, "done": 0,
                             "start": sc["starts"].get(n, 0), "pipe": n in (sc.get("pipeline") or []), "next_at": 0,
-                            "nsetup": sum(1 for m in progs[n][0] if not _is_subroutine(m))}
+                            "nsetup": sum(1 for m in progs[n][0] if not _is_subroutine(m)),
+                            "hold": progs[n][2] if len(progs[n]) > 2 else None, "t_block": None}
         gap = sc.get("pipe_gap", 0)
         sched = self.make_sched(sc["sched"])
         steps, hang = 0, None
@@ -621,6 +659,20 @@ class Runner:
                 # `gap` scheduler steps apart without waiting for the previous one to finish
                 ready = h["done"] >= h["sent"] or (h["pipe"] and h["sent"] >= h["nsetup"] and h["done"] >= h["nsetup"]
                                                    and steps >= h["next_at"])
+                hold = h["hold"]
+                if hold is not None and h["sent"] == hold["msg"] and not ready:
+                    # the blocked request (message hold.msg - 1) is running; its result cannot be stored while the old
+                    # qubit sits at the virtual address (netqasm keeps it in Executor._pending_epr_responses and the
+                    # executioner looks again every RETRY_PERIOD of virtual time).  The host submits the freeing
+                    # subroutine (k - 1/2) periods after the result first had to wait: the k-th look is the first
+                    # that can store it.  (The wake-up timer is the harness's own: virtual time is free.)
+                    if h["t_block"] is None and nq.facs[n].backend._executor._pending_epr_responses:
+                        h["t_block"] = nq.clock.seconds()
+                        nq.clock.callLater((hold["k"] - 0.5) * RETRY_PERIOD, lambda: None)
+                    ready = (h["t_block"] is not None and h["done"] >= h["sent"] - 1
+                             and nq.clock.seconds() >= h["t_block"] + (hold["k"] - 0.5) * RETRY_PERIOD - 1e-9)
+                    if ready:
+                        h["released_at"] = nq.clock.seconds() - h["t_block"]
                 if h["sent"] < len(h["msgs"]) and ready and steps >= h["start"]:
                     nq.feed(h["p"], S.frame(h["sent"], h["msgs"][h["sent"]]))
                     h["sent"] += 1
@@ -654,7 +706,10 @@ class Runner:
         joint = nq.joint_state()
         inflight = {n: {"typ": r["typ"], "remote": names.get(r["remote"]), "sock": r["sock"]}
                     for n, r in curpair.items() if r["done"] is None}
-        obs = {"ids": ids, "names": names, "ev": ev, "inflight": inflight, "locks": nq.lock_flags(),
+        held = {n: {"waited": h["t_block"] is not None, "released": h.get("released_at"), "sent_all": h["sent"] >= len(h["msgs"])}
+                for n, h in hosts.items() if h["hold"] is not None}
+        obs = {"ids": ids, "names": names, "ev": ev, "inflight": inflight, "locks": nq.lock_flags(), "held": held,
+               "pending_responses": {n: len(nq.facs[n].backend._executor._pending_epr_responses) for n in nodes},
                "samples": sample_log, "choices": choices_log, "reqlog": reqlog, "replies": replies, "maxopen": maxopen,
                "snap": snap, "joint": joint, "hang": hang, "steps": steps,
                "unfinished": [n for n in hosts if hosts[n]["done"] < len(hosts[n]["msgs"])],
@@ -849,7 +904,34 @@ def oracle(sc, obs, table, viol, notes, acc=None):
                  "send_epr_half holds its own node lock and waits for the next node's (%s)" % (
                      " , ".join("%s -> %s" % (c, fl[c]["remote"]) for c in cyc), obs["hang"]))
         else:
-            viol("hang", "scenario did not finish: %s; in flight %s" % (obs["hang"], fl))
+            # one side of a request has its n results, the other side never obtains them (no wait-for cycle; the
+            # hosts' arrays say who has what): named by what the property says, not by the symptom
+            one_sided = None
+            try:
+                rr = request_results(sc, obs)
+            except Exception:
+                rr = {}
+            for ri, r in enumerate(sc["reqs"]):
+                cv, rv = rr.get(ri, [None, None])
+                full = [v is not None and len(v) == OK_FIELDS * r["n"] and not any(x is None for x in v) for v in (cv, rv)]
+                if full[0] != full[1]:
+                    a, s_, b, t_ = sc["links"][r["link"]]
+                    if r["dir"] == 1:
+                        a, s_, b, t_ = b, t_, a, s_
+                    have, lack = (("creator " + a, "receiver " + b) if full[0] else ("receiver " + b, "creator " + a))
+                    seqs = [decode(sl)["seq"] for sl in slices(cv if full[0] else rv)]
+                    one_sided = ("request %d (%s %s:%d -> %s:%d, n=%d): the %s obtained its %d result(s) (sequence numbers %s), "
+                                 "the %s never obtains any (%s; results waiting to be stored per node %s%s)" % (
+                                     ri, r["typ"], a, s_, b, t_, r["n"], have, r["n"], seqs, lack, obs["hang"],
+                                     obs.get("pending_responses"),
+                                     "; the host freed the virtual address the result waits for %.2f virtual seconds after the "
+                                     "result was ready" % [h["released"] for h in obs.get("held", {}).values()][0]
+                                     if any(h.get("released") is not None for h in obs.get("held", {}).values()) else ""))
+                    break
+            if one_sided:
+                viol("counts:one-side-never-obtains-results", one_sided)
+            else:
+                viol("hang", "scenario did not finish: %s; in flight %s" % (obs["hang"], fl))
         return
     failed = []
     for n, rep in sorted(obs["replies"].items()):
@@ -874,6 +956,12 @@ def oracle(sc, obs, table, viol, notes, acc=None):
         viol("host-stuck", "no Done for every message at %s" % obs["unfinished"])
     if not obs["locks_free"]:
         viol("locks-held", "a lock is still held when the network is idle")
+    if any(obs.get("pending_responses", {}).values()):
+        viol("result-pending-at-quiescence", "the network is idle and entanglement results are still waiting to be stored: %s"
+             % {n: k for n, k in obs["pending_responses"].items() if k})
+    for n, h in obs.get("held", {}).items():
+        if not h["waited"]:
+            notes["blocked-request-did-not-wait"] = notes.get("blocked-request-did-not-wait", 0) + 1
     rr = request_results(sc, obs)
     regroup_same_socket(sc, obs, rr, viol, notes)
     snap, joint = obs["snap"], obs["joint"]
@@ -1088,7 +1176,8 @@ def run(ctx):
                 "NONE/XZ/XYZ and arbitrary probability parameters), opposite directions at once, one SDK program per "
                 "node split into 1..k subroutines, start offsets, schedulers Fifo / Random / DelayInjection / PCT, config "
                 "file listing the nodes in random order; pipelined hosts (2-3 sockets, 2 neighbours, 2-3 K or M requests "
-                "on ONE socket pair); application histories (2-3 applications one after another on one long-lived network, "
+                "on ONE socket pair); create-and-keep results that cannot be stored when the pair is ready (creator / receiver "
+                "host frees the virtual address k = 1, 2, 3, 5 retry periods later, n = 1..2); application histories (2-3 applications one after another on one long-lived network, "
                 "EPR socket ids re-used towards other remote ids / nodes, K and M, n = 1..2, Fifo / Random / DelayInjection); plus "
                 "the fixed corpus (one K, one M per basis set, both directions, receiver at capacity) and the exhaustive "
                 "weight / basis-set / outcome tables; non-trivial = at least one request completed; distinct by descriptor")
@@ -1126,8 +1215,11 @@ def run(ctx):
             res.count("req:%s" % r["typ"] + (":%s/%s" % (r["rbl"], r["rbr"]) if r["typ"] == "M" else ""))
             res.count("pairs", r["n"])
         res.count("empty-polls", sum(1 for e in obs["ev"] if e[0] == "recv" and e[4] is None))
-        res.case({k: sc[k] for k in ("nodes", "order", "links", "reqs", "progs", "sched", "starts", "pipeline", "pipe_gap")
+        res.case({k: sc[k] for k in ("nodes", "order", "links", "reqs", "progs", "sched", "starts", "pipeline", "pipe_gap", "block")
                   if k in sc}, nontrivial=True)
+        for n_, h_ in (obs.get("held") or {}).items():
+            res.count("blocked:%s-side:k=%d:%s" % ("creator" if sc["block"]["side"] == "c" else "receiver", sc["block"]["k"],
+                                                   "result-waited" if h_["waited"] else "result-did-not-wait"))
         res.count("config-file-order:" + ("alphabetical" if config_order(sc) == sorted(sc["nodes"]) else "not-alphabetical"))
         if sc.get("pipeline"):
             # how many pairs were being created at one node at the same time (the point of these scenarios)
@@ -1249,6 +1341,9 @@ def run(ctx):
     # ---- several create requests in flight at ONE node at once (one host, non-crossing directions)
     for sc in concurrent_scenarios(ctx.rng, ctx.scale(2, 12)):
         one(sc, "concurrent")
+    # ---- results that cannot be stored when the pair is ready (the virtual address is freed k retry periods later)
+    for sc in blocked_scenarios(ctx.rng, ctx.scale(3, 20)):
+        one(sc, "blocked")
     # ---- random scenarios
     nsc = ctx.scale(600, 9000)
     for i in range(nsc):
@@ -1468,6 +1563,41 @@ def concurrent_scenarios(rng, rounds):
                             "pipeline": [nodes[0]], "pipe_gap": 0 if fifo else rng.choice([0, 0, 1, 2, 5, 12]),
                             "rng": rng.randrange(1 << 30)})
                 k += 1
+    return out
+
+
+def blocked_scenarios(rng, rounds):
+    """A create-and-keep result that cannot be stored when the pair is ready: the host of one side (creator or
+    receiver) still holds a qubit at the virtual address its request names for the first pair and frees it with a LATER
+    subroutine, submitted (k - 1/2) retry periods of virtual time after the result had to wait, k = 1, 2, 3, 5 -- so the
+    result becomes storable at the k-th look.  No other entanglement result arrives at that node meanwhile (n = 1), or
+    the second pair of the same request does (n = 2).  The other side is an ordinary blocking host.  Judged by the
+    ordinary oracle (both sides obtain n matching results, the halves are one Phi+ pair, nothing left over, nothing
+    pending when the network is idle) and tied like any other scenario."""
+    out = []
+    idx = 0
+    for rnd in range(rounds):
+        for side in ("c", "r"):
+            for k in (1, 2, 3, 5):
+                names = rng.sample(NAMES[:3], 3)
+                a, b = names[0], names[1]
+                nodes = [a, b] if rng.random() < 0.6 else list(names)
+                n = 1 if (idx + rnd) % 3 else 2
+                s, t = rng.choice([0, 0, 1, 2]), rng.choice([0, 0, 1, 3])
+                d = rng.randrange(2)
+                links = [[a, s, b, t]]
+                creator, receiver = (a, b) if d == 0 else (b, a)
+                blocked = creator if side == "c" else receiver
+                fifo = rnd == 0 and idx % 2 == 0
+                sd = {"kind": "fifo", "seed": 0} if fifo else {"kind": "random", "seed": rng.randrange(1 << 30)}
+                sc = {"id": "blocked%d:%s:k=%d" % (idx, "creator" if side == "c" else "receiver", k), "nodes": nodes,
+                      "order": rng.sample(nodes, len(nodes)), "links": links,
+                      "reqs": [{"link": 0, "dir": d, "n": n, "typ": "K"}],
+                      "progs": {m: ([[["c", 0]]] if m == creator else [[["r", 0]]] if m == receiver else []) for m in nodes},
+                      "sched": sd, "starts": {m: 0 if fifo else rng.choice([0, 0, 3, 10, 40]) for m in nodes},
+                      "block": {"node": blocked, "side": side, "req": 0, "k": k}, "rng": rng.randrange(1 << 30)}
+                out.append(sc)
+                idx += 1
     return out
 
 
